@@ -6,7 +6,7 @@ fn apply_exp10(base: BigInt, exponent: i32) -> Ratio<BigInt> {
     if exponent >= 0 {
         Ratio::from(base * BigInt::from(10).pow(exponent as u32))
     } else {
-        Ratio::new(base, BigInt::from(10).pow((-exponent) as u32))
+        Ratio::new(base, BigInt::from(10).pow(exponent.unsigned_abs()))
     }
 }
 
@@ -59,11 +59,13 @@ fn parse_decimal_exactly(s: &str) -> Option<Ratio<BigInt>> {
         };
 
         let decimal_places = fractional_part.len();
+        // the exponent arithmetic is done in i32: give up instead of overflowing
+        let shift = i32::try_from(decimal_places).ok()?;
         let base_value =
             integer_digits * BigInt::from(10).pow(decimal_places as u32) + fractional_digits;
         let base_value = if negative { -base_value } else { base_value };
 
-        Some(apply_exp10(base_value, exponent - (decimal_places as i32)))
+        Some(apply_exp10(base_value, exponent.checked_sub(shift)?))
     } else {
         Some(apply_exp10(base_str.parse().ok()?, exponent))
     }
@@ -161,6 +163,7 @@ mod tests {
         );
         assert_eq!(parse_rational_exactly("--1.5"), None);
 
+        assert_eq!(parse_rational_exactly("0.5e-2147483648"), None);
         assert_eq!(parse_rational_exactly(""), None);
         assert_eq!(parse_rational_exactly("abc"), None);
         assert_eq!(parse_rational_exactly("1/0"), None);
